@@ -7,7 +7,7 @@
    The random source is any byte stream r; size limits (144, 192, 224, 32, 235, 255, 256) enter the
    model through Gen/RsaConsts.v, regenerated from crypto/rsa_pad.go, crypto/rsa.go on every run. *)
 From Coq Require Import ZArith List Bool Lia.
-From TD Require Import Lib.Bytes Lib.GoSem Lib.BeBytes Gen.RsaConsts Model.RsaPad Model.RsaPadSpec Proof.RsaPad.
+From TD Require Import Lib.Bytes Lib.GoSem Lib.BeBytes Gen.RsaConsts Model.RsaPad Model.RsaPadSpec Proof.RsaPad Proof.RsaPadNV.
 Import ListNotations.
 Open Scope Z_scope.
 
@@ -92,6 +92,23 @@ Theorem C14_pad_reject :
       decode_rsa_pad sha256 aes_dec modexp N d c = Err EHashMismatch.
 Proof. exact pad_reject. Qed.
 Print Assumptions C14_pad_reject.
+
+(* Foreign key, as a named statement: a ciphertext that RSAPad produced under another public key
+   (N', e') is rejected by DecodeRSAPad under (N, d) unless its RSA plaintext under (N, d) happens to
+   be a well-formed RSA_PAD block (the 2^-256 event of the note in props/C14.json). *)
+Theorem C14_pad_foreign_key :
+  forall sha256 aes_enc aes_dec modexp N d,
+    sha256_wf sha256 -> aes_wf aes_enc -> aes_inverse aes_enc aes_dec ->
+    aes_dec_wf aes_dec -> aes_inverse_r aes_enc aes_dec ->
+    forall modexp' N' e' data r c,
+      rsa_pad sha256 aes_enc modexp' N' e' data r = Ok c ->
+      (forall tk x blk, length tk = 32%nat -> length x = 192%nat -> bytes_ok x ->
+                        pad_key_aes_encrypted sha256 aes_enc tk x = Ok blk ->
+                        rsa_decrypt modexp N d c 256 <> Some blk) ->
+      decode_rsa_pad sha256 aes_dec modexp N d c = Err EInvalid \/
+      decode_rsa_pad sha256 aes_dec modexp N d c = Err EHashMismatch.
+Proof. exact pad_foreign_key. Qed.
+Print Assumptions C14_pad_foreign_key.
 
 (* Altered ciphertexts.  Before the repair "fix: reject non-canonical RSA ciphertexts" rsaDecrypt
    took any byte string, so c + k*N (while it fits 256 bytes) and 0x00||c were ALTERED ciphertexts
@@ -224,3 +241,14 @@ Example C14_roundtrip_runs :
   | _ => Panic
   end = Ok ([1; 2; 3] ++ repeat 7 189).
 Proof. vm_compute. reflexivity. Qed.
+
+(* non-degenerate non-vacuity of C14_hashed_roundtrip: with a real SHA-1 (coq/Impl, Proof/RsaPadNV.v)
+   and 220 bytes of data the collision premise has 15 genuine instances, all hypotheses hold and the
+   conclusion is reached *)
+Example C14_hashed_roundtrip_nonvacuous :
+  sha1_wf nv_sha1r /\ modexp_is_pow modexp_sm nv_N /\ rsa_key_pair nv_N 1 1 /\
+  (forall i, (length nv_data < i <= 235)%nat ->
+     nv_sha1r (firstn i (nv_data ++ skipn (20 + length nv_data) (firstn 255 nv_stream))) <> nv_sha1r nv_data) /\
+  exists c, rsa_encrypt_hashed nv_sha1r modexp_sm nv_N 1 nv_data nv_stream = Ok c /\
+            rsa_decrypt_hashed nv_sha1r modexp_sm nv_N 1 c = Ok nv_data.
+Proof. exact hashed_roundtrip_nonvacuous. Qed.
